@@ -1,7 +1,7 @@
 // c05_tbb.cpp — the TBB-parallel approximate entry points on the real code, compiled UNCHANGED against the controllable
 // fake TBB (harness/shim/tbb, lib.build_cpp(..., shim=True)) and executed under the schedule given in the case (C05 / C06,
 // theorems Properties_C03_approx.v; model ApproxParModel.approx_run_tbb).
-//   P <alg> <D|I> <scale> <k> <nbits> <bitstring|-> <perm1> <permc> <permw> <trace 0|1> <graph>
+//   P <alg> <D|I|L> <scale> <k> <nbits> <bitstring|-> <perm1> <permc> <permw> <trace 0|1> <graph>
 //       alg = signed | fvs | iso      (approx_mcb_sva_signed_tbb | approx_mcb_sva_fvs_trees_tbb | approx_mcb_sva_iso_trees_tbb)
 //       bitstring = verif_sched::bits; perm1 / permc / permw = lists "n x1 .. xn":
 //         perm1 = explicit insertion order handed to the shim at reset (reaches the exact phase's concurrently pushed supports),
@@ -18,7 +18,7 @@
 //             through the PARMCB_VERIF accessors; ExactAlgo = the library's own functor wrapped by a hook that, when the
 //             exact phase has returned, records the stream position and installs permc / permw for the builder.
 //       answer = THROW runtime_error EMITTED <n>   |   RET <w> N <n> CYC <len> <ids> ...   (cycles IN EMISSION ORDER)
-// The two insertion orders are driven apart without touching the shim: tbb::concurrent_vector<double> / <int> (used by
+// The two insertion orders are driven apart without touching the shim: tbb::concurrent_vector<double> / <int> / <long long> (used by
 // parmcb for `cycles_weights` only) is explicitly specialised here as a copy of the shim's container whose rearrangement
 // callback takes its permutation from this harness (verif_c05::wperm) instead of the shim's single push_perm.
 #ifndef VERIF_FAKE_TBB
@@ -92,6 +92,7 @@ namespace verif_c05 {
 namespace tbb {
     template<> class concurrent_vector<double, std::allocator<double>> : public verif_c05::weights_vector<double> { };
     template<> class concurrent_vector<int, std::allocator<int>> : public verif_c05::weights_vector<int> { };
+    template<> class concurrent_vector<long long, std::allocator<long long>> : public verif_c05::weights_vector<long long> { };
 }
 
 #include "mcb_common.hpp"
@@ -263,6 +264,9 @@ int main() {
         cs.bits = read_bits(t);
         cs.perm1 = t.next_szlist(); cs.permc = t.next_szlist(); cs.permw = t.next_szlist();
         cs.trace = t.next_sz() != 0;
-        if (ty == "D") run_alg<DGraph>(cs, t, scale, out); else run_alg<IGraph>(cs, t, 0, out);
+        if (ty == "D") run_alg<DGraph>(cs, t, scale, out);
+        else if (ty == "L") run_alg<LGraph>(cs, t, 0, out);          // long long weights (64-bit integers, values above 2^53 included)
+        else if (ty == "I") run_alg<IGraph>(cs, t, 0, out);
+        else throw std::logic_error("bad weight type");
     });
 }
